@@ -44,9 +44,9 @@ JudgeA(r) ==
 \* `a T b` of the parser built right after the call shows the registered operator (judged when the
 \* token has no other accepted infix/postfix role, which would share its table entry)
 ExpectedProbe(op, a) ==
-  CASE op = "prefix" -> "(prog (expr (cun:" \o a \o " (id:a)))) errs="
-    [] op = "postfix" -> "(prog (expr (cpost:" \o a \o " (id:a)))) errs="
-    [] op = "infix" -> "(prog (expr (cbin:" \o a \o " (id:a) (id:b)))) errs="
+  CASE op = "prefix" -> "(prog (expr (cun:" \o a \o " (id:a)))) errs=0"
+    [] op = "postfix" -> "(prog (expr (cpost:" \o a \o " (id:a)))) errs=0"
+    [] op = "infix" -> "(prog (expr (cbin:" \o a \o " (id:a) (id:b)))) errs=0"
 TakesEffect(r) ==
   \A k \in 1..Len(r.h) :
     LET e == r.h[k]
